@@ -376,5 +376,12 @@ func c01Shortcuts() []c01Pair {
 	for _, p := range pairs {
 		ps = append(ps, c01Pair{Family: "shortcut", Key: "shortcut", A: p[0], B: p[1], Input: in})
 	}
+	// G18-1 (fixed): an action body that compiles to no instruction is still an action (it gets a Nop)
+	for _, p := range [][2]string{
+		{`/a/ { }`, `/a/ { { } }`}, {`/a/ { }`, `/a/ { { { } } { } }`}, {`/a/ { print }`, `/a/`}, {`{ } END { print NR }`, `{ { } } END { print NR }`},
+		{`/a/ { } { print "x" }`, `/a/ { { } } { print "x" }`},
+	} {
+		ps = append(ps, c01Pair{Family: "shortcut", Key: "corpus:G18-1", A: p[0], B: p[1], Input: "a\nb\nca\n"})
+	}
 	return ps
 }
